@@ -282,12 +282,19 @@ func c14Case(c *core.Ctx) *core.Result {
 		}
 	} else {
 		n := r.Range(1, 12)
+		longChain := r.Chance(1, 12)
+		if longChain {
+			n = r.Range(13, 80) // resolution depth must not be bounded by anything but the chain itself
+		}
 		keepPredefined = r.Bool()
 		for i := 0; i < n; i++ {
 			ids = append(ids, fmt.Sprintf("s%d", i))
 		}
 		shapes := []string{"chain", "forest", "cycle", "self-loop", "missing-parent", "chain-into-cycle", "random"}
 		shape = shapes[r.Intn(len(shapes))]
+		if longChain {
+			shape = []string{"chain", "chain-into-cycle"}[r.Intn(2)]
+		}
 		parent := make([]string, n)
 		switch shape {
 		case "chain":
@@ -347,6 +354,9 @@ func c14Case(c *core.Ctx) *core.Result {
 			}
 		}
 		density := r.Range(1, 6)
+		if longChain {
+			density = 0 // attributes only at the far end of the chain (set below)
+		}
 		for i := 0; i < n; i++ {
 			st := &style.Style{Type: r.Pick([]string{"paragraph", "character", "paragraph"}), StyleID: ids[i], Name: &style.StyleName{Val: "name " + ids[i]}, CustomStyle: true}
 			if parent[i] != "" {
@@ -354,7 +364,7 @@ func c14Case(c *core.Ctx) *core.Result {
 				sampleEdges = append(sampleEdges, ids[i]+"->"+parent[i])
 			}
 			for _, a := range attrs {
-				if r.Chance(density, 7) {
+				if r.Chance(density, 7) || (longChain && i >= n-3 && r.Bool()) {
 					setAttr(st, a, ids[i], r)
 				}
 			}
@@ -580,7 +590,7 @@ func init() {
 	core.Register(&core.Check{
 		ID:    "C14",
 		Level: "exploration",
-		Rule: "style registries built through AddStyle/CreateCustomStyle: the first 216 cases enumerate every formatting element (pointer fields of ParagraphProperties and RunProperties, taken by reflection) × depth of its nearest definer 0..3 on a 4-chain × {no other attributes, all other attributes everywhere, random}; the rest are 1-12 styles over chain / forest / k-cycle / self-loop / missing-parent / chain-into-cycle / random (incl. predefined parents) graphs with random attribute subsets, every value tagged with its owner. " +
+		Rule: "style registries built through AddStyle/CreateCustomStyle: the first 216 cases enumerate every formatting element (pointer fields of ParagraphProperties and RunProperties, taken by reflection) × depth of its nearest definer 0..3 on a 4-chain × {no other attributes, all other attributes everywhere, random}; the rest are 1-12 styles (one case in twelve: chains of 13-80 styles with the attributes only at the far end) over chain / forest / k-cycle / self-loop / missing-parent / chain-into-cycle / random (incl. predefined parents) graphs with random attribute subsets, every value tagged with its owner. " +
 			"Every id (plus absent ones) is resolved with GetStyleWithInheritance, ApplyStyleToXML and GetStyleInfo and compared per element with a reference resolver (walk basedOn with a visited set, first definer wins); the registry dump must be unchanged afterwards; Clone() must dump equal, share no heap object, and be unaffected by scribbling the source (and vice versa). " +
 			"Non-trivial: at least one value confirmed as inherited from an ancestor, or a cyclic chain queried; distinct = graph shape + edges + registry hash.",
 		Cases:          func(t string) int { return tierN(t, 20000, 1000000) },
